@@ -65,10 +65,11 @@ NoJunk(ms) == \A i \in 1..Len(ms) : ms[i].t \in {"ins", "del", "nuc", "aa"}
 (* the position a record is sorted / filtered by; -1 = cannot be told from the output (codon straddling a join) *)
 PosOfMut(c, m) ==
   IF m.t # "aa" THEN m.p
-  ELSE LET fi == {i \in 1..Len(c.feats) : c.feats[i].name = m.f /\ m.k <= NCodons(c.feats[i])} IN
-       IF fi = {} THEN -1
-       ELSE LET f == c.feats[CHOOSE i \in fi : TRUE]  cp == CodonPos(f, m.k) IN
-            IF cp[2] = cp[1] + f.strand /\ cp[3] = cp[2] + f.strand THEN cp[1] ELSE -1
+  ELSE LET fi == {i \in 1..Len(c.feats) : c.feats[i].name = m.f /\ m.k <= NCodons(c.feats[i])}
+           posIn(i) == LET f == c.feats[i]  cp == CodonPos(f, m.k) IN
+                       IF cp[2] = cp[1] + f.strand /\ cp[3] = cp[2] + f.strand THEN cp[1] ELSE -1
+           ps == {posIn(i) : i \in fi}
+       IN IF Cardinality(ps) = 1 THEN CHOOSE p \in ps : TRUE ELSE -1      \* (two CDS of one gene may number the same codon differently)
 Sorted(c, ms) == \A i, j \in 1..Len(ms) : (i < j /\ PosOfMut(c, ms[i]) # -1 /\ PosOfMut(c, ms[j]) # -1) => PosOfMut(c, ms[i]) <= PosOfMut(c, ms[j])
 
 (* ---- relations between real runs ------------------------------------------------------ *)
